@@ -223,6 +223,44 @@ Example C15_channel_nonvacuous :
 Proof. exact chan_demo_run. Qed.
 Print Assumptions C15_channel_nonvacuous.
 
+(* ---- Forwarding: a proxied client's packets (Proxy.notify -> Session.write -> next -> Listener) ---- *)
+(* whatever Session sid writes for a packet naming dev -- whole, or cut into fragments when its size
+   is above limits.Frag -- every queued piece names dev (not sid) *)
+Theorem C15_forward_write_keeps_device :
+  forall F sid dev pid job size w, In w (session_write F sid dev pid job size) ->
+  wp_dev w = dev /\ wp_pid w = pid /\ wp_job w = job.
+Proof. exact session_write_dev. Qed.
+Print Assumptions C15_forward_write_keeps_device.
+
+(* all histories of hellos / packets of any size handed to A's Proxy / A sending its queue, from the
+   state in which A registered: every effect upstream (handler call, address or key update) happens in
+   the session whose ID is the device on whose behalf it happens, and that device is one that handed
+   the packet to the Proxy *)
+Theorem C15_forward_history :
+  forall F A ops w w' es N, frun F A w ops = (w', es) -> wf (fw_tbl w) ->
+  Forall (fun x => In (wp_dev x) N) (fw_q w) ->
+  wf (fw_tbl w') /\ Forall (Forall (eff_ok (N ++ fops_devs ops) [])) es.
+Proof. exact frun_spec. Qed.
+Print Assumptions C15_forward_history.
+
+Theorem C15_forwarded_handled_in_own_session :
+  forall F A ops w' es e sid pdev job,
+  frun F A (fw0 A) ops = (w', es) -> In e es -> In (EHandle sid pdev job) e ->
+  sid = pdev /\ In pdev (fops_devs ops).
+Proof. exact forwarded_handled_in_own_session. Qed.
+Print Assumptions C15_forwarded_handled_in_own_session.
+
+(* non-vacuity: C behind A's Proxy, limits.Frag = 100: a packet of size 40 goes whole, one of size 250 in
+   3 fragments naming C; both are handled in C's session *)
+Example C15_forward_nonvacuous :
+  (let '(w, es) := frun 100 idA (fw0 idA) (firstn 4 fwd_demo) in (fw_q w, es)) =
+    ([WP idC 192 6 0 0; WP idC 193 7 0 3; WP idC 193 7 1 3; WP idC 193 7 2 3],
+     [[]; [ETouch idC idC; ENew idC; ETouch idC idC]; []; []]) /\
+  (frun 100 idA (fw0 idA) fwd_demo).2 =
+    [[]; [ETouch idC idC; ENew idC; ETouch idC idC]; []; []; [ETouch idC idC; EHandle idC idC 6; EHandle idC idC 7]].
+Proof. exact fwd_demo_run. Qed.
+Print Assumptions C15_forward_nonvacuous.
+
 (* ---- the code as it was before the fix: commits (chk = false), with the real pair ------------- *)
 (* Server.Session(B) returned A's session; a packet naming B updated the address / last-seen time
    of A's session and overwrote its key material before receive() refused it (talk and talkSub);
